@@ -17,7 +17,8 @@ NMEMBERS = 4
 def render(vals=None):
     v = vals or {'wg': (1, 2, 3), 'res': 'struct', 'members': [('loc', 0), ('builtin', 0), ('loc', 1), ('loc', 2)], 'loc': 0,
                  'extra_stage': 2, 'res2': 'none', 'loc2': 0}
-    out = ['struct VIn { @location(0) a: vec4<f32>, @location(1) b: vec2<f32> }',
+    out = ['override scale: f32 = 1.0;' if v.get('ov_default', True) else 'override scale: f32;',
+           'struct VIn { @location(0) a: vec4<f32>, @location(1) b: vec2<f32> }',
            'struct VInst { @location(2) m: vec4<f32> }', 'struct VBuiltins { @builtin(vertex_index) vi: u32, @builtin(instance_index) ii: u32 }']
     ms = []
     nb = 0
@@ -72,6 +73,10 @@ def build(ctx):
     idx = {e['name']: i for i, e in enumerate(mj['entry_points'])}
     h = H()
     h.src = src
+    # the module has one override whose default is present or not (symbolic): entry metadata must not depend on it
+    h.ov_default = z3.Bool('override_has_default')
+    ov = c.get(module, 'overrides').fields[0].items[0]
+    c.set(ov, 'init', Agg('Option', {'Some': [0], 'None': []}, disc=z3.If(h.ov_default, z3.BitVecVal(1, 64), z3.BitVecVal(0, 64))))
     # workgroup size
     h.wg = [z3.BitVec(f'wg{i}', 32) for i in range(3)]
     c.set(eps[idx[NAMES['cs']]], 'workgroup_size', list(h.wg))
@@ -143,7 +148,7 @@ def vals_of(h, m):
     g = lambda t: model_value(m, t)
     res = 'none' if not g(h.has_res) else ('struct' if not g(h.res_bound) else ('loc' if g(h.res_kind) == h.B['Location'] else 'builtin'))
     res2 = 'none' if not g(h.has_res2) else ('struct' if not g(h.res_bound2) else ('loc' if g(h.res_kind2) == h.B['Location'] else 'builtin'))
-    return {'wg': tuple(g(w) for w in h.wg), 'res': res, 'loc': g(h.res_loc), 'res2': res2, 'loc2': g(h.res_loc2),
+    return {'wg': tuple(g(w) for w in h.wg), 'res': res, 'loc': g(h.res_loc), 'res2': res2, 'loc2': g(h.res_loc2), 'ov_default': g(h.ov_default),
             'members': [('loc' if g(k) == h.B['Location'] else 'builtin', g(l)) for k, l in zip(h.mk, h.ml)],
             'extra_stage': g(h.extra_stage)}
 
@@ -187,14 +192,15 @@ def static_conditions(f, extra_stage_concrete, names=NAMES):
     if fs:
         cs.append(('fragment helper names its own entry', fs['fields'].get('entry_point') == f'ENTRY_{up["fs"]}'))
         cs.append(('fragment helper forwards targets', fs['fields'].get('targets') == 'targets'))
-        cs.append(('fragment helper without overrides', fs['fields'].get('constants') == 'Default :: default ()' and not fs['overrides_param']))
+        cs.append(('fragment helper takes the module\'s overrides', fs['fields'].get('constants') == 'overrides . constants ()' and fs['overrides_param']))
     vs = f['vs']
     cs.append(('vertex helper exists', vs is not None))
     if vs:
         cs.append(('vertex helper: one buffer per struct parameter, in order',
                    vs['n_ret'] == 3 and vs['buffers'] == ['VIn :: vertex_buffer_layout (v_in)', 'VBuiltins :: vertex_buffer_layout (v_builtins)',
                                                           'VInst :: vertex_buffer_layout (v_inst)']
-                   and vs['params'] == [('v_in', 'wgpu :: VertexStepMode'), ('v_builtins', 'wgpu :: VertexStepMode'), ('v_inst', 'wgpu :: VertexStepMode')]))
+                   and vs['params'] == [('v_in', 'wgpu :: VertexStepMode'), ('v_builtins', 'wgpu :: VertexStepMode'), ('v_inst', 'wgpu :: VertexStepMode'),
+                                        ('overrides', '& OverrideConstants')]))
         cs.append(('vertex helper names its own entry', vs['fields'].get('entry_point') == f'ENTRY_{up["vs"]}'))
     p = f['pipes'].get(f'create_{names["cs"]}_pipeline')
     cs.append(('compute pipeline constructor exists', p is not None))
@@ -229,7 +235,7 @@ def run(ctx):
     src = h.src
     ctx.bounds = {'entries': '4 (vertex with 3 struct parameters, one of them made of builtins only; fragment; compute; one of symbolic stage)',
                   'fragment result': f'none / @location(l) / builtin / struct of {NMEMBERS} members each builtin or @location(l_i); l over all u32; the extra entry, when a fragment entry, has its own symbolic result of the same type',
-                  'workgroup size': '3 x all of u32', 'names': list(NAMES.values())}
+                  'workgroup size': '3 x all of u32', 'overrides': 'one override, default present or absent (symbolic)', 'names': list(NAMES.values())}
     ctx.assumptions += ['"as many colour targets as are needed to address every @location" = 1 + the highest location written (0 if none)',
                         'entry names are concrete (mixed case, non-ASCII, digits): string case mapping is not symbolic',
                         'workgroup sizes given by constants / overrides are folded by the naga front end before the generator sees them']
@@ -344,7 +350,7 @@ def native(ctx):
         v = {'wg': tuple(ctx.rng.choice([1, 2, 64, 65535, 2 ** 32 - 1]) for _ in range(3)),
              'res': ctx.rng.choice(['none', 'loc', 'builtin', 'struct']), 'loc': ctx.rng.choice([0, 1, 3, 7]),
              'members': [(ctx.rng.choice(['loc', 'loc', 'builtin']), l) for l in locs], 'extra_stage': ctx.rng.randrange(3),
-             'res2': ctx.rng.choice(['none', 'loc', 'loc', 'struct']), 'loc2': ctx.rng.choice([0, 2, 5])}
+             'res2': ctx.rng.choice(['none', 'loc', 'loc', 'struct']), 'loc2': ctx.rng.choice([0, 2, 5]), 'ov_default': ctx.rng.random() < 0.5}
         if v['res'] == 'builtin' and v['res2'] == 'builtin':
             v['res2'] = 'loc'
         if sum(1 for k_, _ in v['members'] if k_ == 'builtin') > 2:
